@@ -445,10 +445,13 @@ def unit_rotation(ctx):
     if mask == "holes":  # two invalid cells, not related by any axis permutation / reflection of the mesh
         valid[(1,) + (0,) * (ndim - 1)] = False
         valid[tuple(i - 1 for i in n)] = False
-    if vector:
-        f, _, _ = _vector_field(ctx, mesh, ndim, labels, perm, vals, valid=valid)
-    else:
-        f = df.Field(mesh, nvdim=1, value=vals, valid=valid)
+    def make():
+        m = _mesh(n, dims, geom, per)
+        if vector:
+            return _vector_field(ctx, m, ndim, labels, perm, vals.copy(), valid=valid.copy())[0]
+        return df.Field(m, nvdim=1, value=vals.copy(), valid=valid.copy())
+
+    f = make()
     fn = OPS[op]
     order = 2 if op.startswith("laplace") else 1
     fmax = float(np.abs(vals).max())
@@ -484,6 +487,18 @@ def unit_rotation(ctx):
         ctx.note("rotation/all-zero-result")
     inst = ctx.key(drop=("geom", "labels"))
     if bad is None:
+        # the field turned IN PLACE must be differentiated like the turned copy (same lattice, same periodic direction)
+        f2 = make()
+        ctx.step(2, "rotate90(inplace=True), then the operator")
+        f2.rotate90(dims[a], dims[b], k=k, inplace=True)
+        li = fn(f2)
+        ctx.check()
+        if not (li.mesh == left.mesh and li.array.shape == left.array.shape
+                and np.all(np.abs(li.array - left.array) <= REL * (scale + np.abs(left.array)))):
+            ctx.fail(f"{op}/after-in-place-rotate90-differs-from-after-copying-rotate90",
+                     f"k={k}, {dims[a]}->{dims[b]}: bc after in-place turn {f2.mesh.bc!r}, after copying turn {left.mesh.bc!r}; "
+                     f"max difference {float(np.max(np.abs(li.array - left.array))) if li.array.shape == left.array.shape else 'shape'}",
+                     instance=inst)
         return
     # exactly one periodic axis in the plane of an odd turn: the periodicity has to turn with the field
     moving = per is not None and len(per) == 1 and per[0] in (a, b) and k % 2 == 1
